@@ -41,6 +41,7 @@ def C01(tier):
     jobs += [hw(32 * min(m, 2)), hw(32 * min(m, 2), flavor="asan")]
     # legacy queues whose target queue is changed (dispatch_set_target_queue) while they are in use
     jobs += spread(hq, "retarget", 16 * m, 2) + [hq("retarget", 6 * m, first=100, ncpu=4), hq("retarget", 5 * m, first=200, flavor="asan", scale=40, timeout=600)]
+    jobs += [hj("h_suspend", 16 * min(m, 2), first=0, mode="pbar")]
     if tier == "thorough":
         jobs += [hq("default", 10 * m, first=2000, flavor="dbg", scale=60, timeout=900)]
         for t in jobs:
@@ -149,7 +150,7 @@ def C04(tier):
     jobs += [hq("gate", 30 * m, first=0, extra=["--gate-conc=1"]), hq("window", 16 * md, first=0), hq("window3", 16 * md, first=0)]
     jobs += [hq("barrier", 6 * m, first=900, flavor="tsan", scale=25, timeout=900, perturb="uniform")]
     jobs += [hq("barrier", 6 * m, first=1000, flavor="asan", scale=40, timeout=600), hq("mixed", 5 * m, first=1020, flavor="asan", scale=40, timeout=600)]
-    jobs += [hq("retarget", 8 * m, first=400)]
+    jobs += [hq("retarget", 8 * m, first=400), hj("h_suspend", 16 * min(m, 2), first=0, mode="pbar")]
     if tier == "thorough":
         for t in jobs:
             t.timeout = 1800
@@ -302,6 +303,8 @@ def C06(tier):
         jobs.append(hj("h_suspend", 6 * m, first=i * 1000 + 500, mode=mode, ncpu=[4, 2, 4, 2, 1][i], scale=60))
     jobs += [hj("h_suspend", 5 * m, first=7000, mode="foreign", ncpu=1, scale=30), hj("h_suspend", 5 * m, first=7100, mode="self", ncpu=1, scale=30)]
     jobs += [hj("h_suspend", 5 * m, first=8000, flavor="asan", scale=30, timeout=600)]
+    # directed: concurrent queue suspended while its drainer retries with a pending barrier (F29)
+    jobs += [hj("h_suspend", 16 * min(m, 2), first=0, mode="pbar"), hj("h_suspend", 8 * min(m, 2), first=100, mode="pbar", flavor="asan", timeout=600)]
     if tier == "thorough":
         jobs += [hj("h_suspend", 20 * m, first=9000, flavor="dbg", scale=60, timeout=1800)]
         for t in jobs:
@@ -314,6 +317,7 @@ def C06(tier):
         "site:_dispatch_lane_suspend_slow:3": 100,     # transfer to the side suspend count
         "site:_dispatch_lane_resume_slow:3": 100,      # and back
         "self": 10, "barrier": 10, "foreign": 10, "conc": 10, "inactive": 10,
+        "pbar_schedule_reached": 18,
     }
     rule = ("one case = one trial of one scenario (self-suspend on a serial queue, barrier-suspend on a concurrent queue, foreign "
             "suspends of a serial queue, foreign suspends of a concurrent queue, initially-inactive queue with racing submissions, "
